@@ -71,7 +71,7 @@ fn gen(rng: &mut Rng, tier: Tier) -> Vec<Case> {
     for len in 0..=12u64 { push("boundary", Rec::new("chrM", u64::MAX - len, u64::MAX), 1 + len / 2); push("boundary", Rec::new("chrM", u64::MAX - len, u64::MAX), u64::MAX); }
     // LONG records (above 2^24, 2^32, 2^53 bases, up to the whole coordinate range) in a few to a few thousand pieces, the bin
     // size a quotient of the length or next to one: arithmetic that is exact only below some magnitude (f32 / f64 / u32)
-    let nl = match tier { Tier::Quick => 150, Tier::Thorough => 3000 };
+    let nl = match tier { Tier::Quick => 150, Tier::Thorough => 1000 };
     for _ in 0..nl {
         let e = *rng.pick(&[24u32, 31, 32, 52, 53, 54, 60, 63]);
         let len = match rng.below(4) { 0 => (1u64 << e) + rng.below(3), 1 => (1u64 << e) - 1 - rng.below(2), 2 => ((1u64 << e) + 1).saturating_mul(rng.range(1, 7)), _ => (1u64 << e) + rng.below(1 << (e - 1)) };
